@@ -964,7 +964,11 @@ def check_transition(res, st, hs, opi, line, contents_tab, lmax, known, asan_rep
                 bad(fmt_obs([cmp_bits(cps, eobs[1])]) + "|" + "|".join(want), whyc)
                 return
             if not cp_order:
+                # the property's model is an array of code points: the ordering predicates are its lexicographic order (R7RS alone
+                # would allow any consistent order; the UTF-8 byte order the implementation uses coincides with code point order)
                 res["cmp_other_order"] += 1
+                bad(fmt_obs([cmp_bits(cps, eobs[1])]) + "|" + "|".join(want), "string<? / string>? disagree with the lexicographic order of the code point sequences")
+                return
             out = "cmp"
         else:
             eo = fmt_obs(eobs)
@@ -1200,7 +1204,7 @@ def main(tier, replay_path=None):
         "(b, U+F1, U+2030, U+1F601) so that in-place writes change the content; successor states that hold an alternate are "
         "checked but not expanded (they have the byte layout of the state with the content-alphabet character in that place)",
         "mutation of symbol->string results is 'an error' in R7RS: a raise that leaves the string unchanged is accepted",
-        "string<? etc: only R7RS 6.7 requirements are asserted (string=? is equality, trichotomy, <=/>= duals, transitivity); "
+        "string<? etc: R7RS 6.7 requirements (string=? is equality, trichotomy, <=/>= duals, transitivity) and agreement with the lexicographic code point order of the model; "
         "agreement with code point order is recorded, not required",
         "string cursors are byte offsets (doc/chibi.scrbl) - string-cursor-offset is compared with the model's byte offsets",
         "utf8->string! / string-offset / string->utf8! from (chibi io) and immutable? from (chibi ast) behave as their names say; "
